@@ -24,6 +24,13 @@
 (*                  by what disk describes; with update the loaded         *)
 (*                  description is written back                            *)
 (*                                                                         *)
+(* The package family (record `pk`): platform, user variable file,         *)
+(* replication, DoWhile document, and which blueprint layers (default /     *)
+(* platform x global / stage) define the same option; every package also   *)
+(* has a stage variable that only a component can resolve (it references   *)
+(* replica / loopIteration) together with a variable the component         *)
+(* overrides.                                                              *)
+(*                                                                         *)
 (* A description is abstract: which platform, which user variables, how    *)
 (* many loop iterations, which patch generation.  `View` turns it into the *)
 (* observable facts the conformance driver reads off the real objects      *)
@@ -43,6 +50,7 @@ CONSTANTS Platforms,   \* subset of {"default", "plat"}: the platform the instan
           UserVars,    \* subset of {"none", "global", "stage"}: user variable file given at creation
           Repls,       \* subset of BOOLEAN: does a component replicate (factor = variable n, which "global" user variables override)
           LoopsC,      \* subset of BOOLEAN: does the package import a DoWhile document
+          Blueprints,  \* subset of {"g", "gs", "sP", "all"}: which blueprint layers define the same option (see Defines)
           MaxIter,     \* loop iterations beyond iteration 0 (kept below 10: see C05)
           MaxPatch,    \* patch generations
           MaxLen,      \* length of the histories
@@ -55,8 +63,12 @@ VARIABLES pk,    \* the package and creation options (constant along a behaviour
 vars == <<pk, mem, disk, hist>>
 view == <<pk, mem, disk>>
 
-Packages == [plat : Platforms, uv : UserVars, repl : Repls, loop : LoopsC]
-None == [live |-> FALSE, plat |-> "default", uv |-> "none", iters |-> 0, patch |-> 0]
+Packages == [plat : Platforms, uv : UserVars, repl : Repls, loop : LoopsC, bp : Blueprints]
+(* `loaded`: were the live objects rebuilt from the directory (Load) or made from the package (Create).  It is     *)
+(* part of the state (so that TLC also takes every step from a reloaded experiment) but no observable fact may     *)
+(* depend on it; the directory never records it.                                                                   *)
+None == [live |-> FALSE, plat |-> "default", uv |-> "none", iters |-> 0, patch |-> 0, loaded |-> FALSE]
+Norm(d) == [d EXCEPT !.loaded = FALSE]
 
 ---------------------------------------------------------------------------
 (* What a description means: the observable, resolved facts (layering as documented: default < platform < user;  *)
@@ -70,22 +82,44 @@ Walltime(d) == IF d.plat = "plat" THEN 62 ELSE 61                       \* bluep
 Override(d) == d.plat = "plat"                                          \* component override of the platform applies
 PpVal(d)   == d.patch                                                   \* component variable changed by Patch (0: as packaged)
 
+(* One option (resourceRequest.numberThreads) is defined by several blueprint layers.  Documented precedence          *)
+(* (FlowIRConcrete.get_component_configuration): default global < default stage < platform global < platform stage.  *)
+(* The stage layers are those of stage 1 (the looped / replicated component); stage 2 only sees the global layers.   *)
+LayerOrder == <<"dg", "ds", "pg", "ps">>
+Value == [dg |-> 1, ds |-> 2, pg |-> 4, ps |-> 8]
+Defines(b) == CASE b = "g" -> {"dg"} [] b = "gs" -> {"dg", "ds"} [] b = "sP" -> {"ds", "pg"} [] OTHER -> {"dg", "ds", "pg", "ps"}
+Applies(d, stageLayers) == (IF d.plat = "plat" THEN {"dg", "ds", "pg", "ps"} ELSE {"dg", "ds"})
+                           \cap (IF stageLayers THEN {"dg", "ds", "pg", "ps"} ELSE {"dg", "pg"})
+Winner(p, d, stageLayers) ==
+    LET act == Defines(p.bp) \cap Applies(d, stageLayers)
+        idx == {i \in 1 .. 4 : LayerOrder[i] \in act}
+    IN  IF idx = {} THEN 1                                                \* built-in default
+        ELSE Value[LayerOrder[CHOOSE i \in idx : \A j \in idx : j <= i]]
+Threads(p, d)  == Winner(p, d, TRUE)        \* every instance of the stage-1 component, whenever it was instantiated
+Threads2(p, d) == Winner(p, d, FALSE)
+
+(* A stage-1 variable `lz` whose value references what only a component knows (replica, loopIteration) and the       *)
+(* variable `mode`, which the component overrides: it is resolved by the component, with the component's `mode`,     *)
+(* before and after any reload.  The platform's stage layer overrides its text (prefix "pz" instead of "z").         *)
+LzPrefix(p, d) == IF ~(p.repl \/ p.loop) THEN "" ELSE IF d.plat = "plat" THEN "pz" ELSE "z"
+
 View(p, d) == [live |-> d.live, plat |-> d.plat, uv |-> UvVal(d), pv |-> PvVal(d), sv |-> SvVal(d),
-               nrep |-> Replicas(p, d), wall |-> Walltime(d), ovr |-> Override(d), pp |-> PpVal(d), iters |-> d.iters]
+               nrep |-> Replicas(p, d), wall |-> Walltime(d), ovr |-> Override(d), pp |-> PpVal(d), iters |-> d.iters,
+               threads |-> Threads(p, d), threads2 |-> Threads2(p, d), lzp |-> LzPrefix(p, d)]
 
 ---------------------------------------------------------------------------
 Init == /\ pk \in Packages
         /\ mem = None /\ disk = None /\ hist = <<>>
 
 Create == /\ ~mem.live /\ ~disk.live
-          /\ mem' = [live |-> TRUE, plat |-> pk.plat, uv |-> pk.uv, iters |-> 0, patch |-> 0]
+          /\ mem' = [live |-> TRUE, plat |-> pk.plat, uv |-> pk.uv, iters |-> 0, patch |-> 0, loaded |-> FALSE]
           /\ disk' = mem'
           /\ hist' = Append(hist, [a |-> "Create", flag |-> TRUE])
           /\ UNCHANGED pk
 
 Iterate(store) == /\ mem.live /\ pk.loop /\ mem.iters < MaxIter
                   /\ mem' = [mem EXCEPT !.iters = @ + 1]
-                  /\ disk' = IF store THEN mem' ELSE disk
+                  /\ disk' = IF store THEN Norm(mem') ELSE disk
                   /\ hist' = Append(hist, [a |-> "Iterate", flag |-> store])
                   /\ UNCHANGED pk
 
@@ -95,14 +129,14 @@ Patch == /\ mem.live /\ mem.patch < MaxPatch
          /\ UNCHANGED <<pk, disk>>
 
 Store == /\ mem.live
-         /\ disk' = mem
+         /\ disk' = Norm(mem)
          /\ hist' = Append(hist, [a |-> "Store", flag |-> FALSE])
          /\ UNCHANGED <<pk, mem>>
 
 (* the live objects are dropped and rebuilt from the directory; `update` writes the loaded description back *)
 Load(update) == /\ disk.live
-                /\ mem' = disk
-                /\ disk' = IF update THEN mem' ELSE disk
+                /\ mem' = [disk EXCEPT !.loaded = TRUE]
+                /\ disk' = IF update THEN Norm(mem') ELSE disk
                 /\ hist' = Append(hist, [a |-> "Load", flag |-> update])
                 /\ UNCHANGED pk
 
@@ -118,9 +152,9 @@ Bounded == Len(hist) < MaxLen          \* CONSTRAINT: histories of at most MaxLe
 
 (* "loading that directory again yields the same ... as the experiment that wrote it":                    *)
 (*  a Load taken when the directory is up to date leaves the description in memory unchanged              *)
-StoreLoadIdentity == [][(disk = mem /\ \E u \in BOOLEAN : Load(u)) => mem' = mem]_vars
+StoreLoadIdentity == [][(disk = Norm(mem) /\ \E u \in BOOLEAN : Load(u)) => Norm(mem') = Norm(mem)]_vars
 (* and in general a Load yields exactly what was stored last *)
-LoadYieldsStored == [][(\E u \in BOOLEAN : Load(u)) => mem' = disk]_vars
+LoadYieldsStored == [][(\E u \in BOOLEAN : Load(u)) => Norm(mem') = disk]_vars
 (* "Loading and storing again does not change the stored description" *)
 LoadStoreIdempotent == [][(\E u \in BOOLEAN : Load(u)) => disk' = disk]_vars
 (* "including user-supplied variables, the selected platform ..." *)
@@ -130,10 +164,17 @@ TypeOK == /\ pk \in Packages
           /\ mem.iters \in 0 .. MaxIter /\ disk.iters \in 0 .. MaxIter
           /\ mem.patch \in 0 .. MaxPatch /\ disk.patch \in 0 .. MaxPatch
           /\ (~pk.loop) => (mem.iters = 0 /\ disk.iters = 0)
+          /\ ~disk.loaded
 (* what is stored is never ahead of the live objects: it was written by them (Store, Iterate(store)) or they were  *)
 (* rebuilt from it (Load); a Store captures everything instantiated / patched so far                               *)
 DiskNeverAhead == disk.live => (mem.live /\ disk.iters <= mem.iters /\ disk.patch <= mem.patch)
-StoreCapturesAll == [][Store => disk' = mem]_vars
+StoreCapturesAll == [][Store => disk' = Norm(mem)]_vars
+(* "the same experiment" also for what happens next: no observable fact depends on whether the live objects were   *)
+(* reloaded, and a further loop iteration of a reloaded experiment is the iteration the original would have made    *)
+(* (Iterate commutes with Store;Load): the new instances get the configuration View prescribes for every instance.  *)
+ViewIndependentOfOrigin == View(pk, mem) = View(pk, Norm(mem))
+IterateCommutesWithReload ==
+    [][(\E s \in BOOLEAN : Iterate(s)) => View(pk, mem') = [View(pk, Norm(mem)) EXCEPT !.iters = @ + 1]]_vars
 
 ---------------------------------------------------------------------------
 (* Emission: every transition with a shortest history reaching it (ACTION_CONSTRAINT, evaluated on every step) *)
